@@ -64,7 +64,7 @@ theorem filter_not_more_statements (q : Stmt → Bool) (m : Bool) (b : List Stmt
     | nil => exact absurd rfl hb
     | cons x xs => simp
 
-example : shouldRename ⟨0, .name, some "long_name", 0, true, none, 0, false, [⟨.name, []⟩, ⟨.name, []⟩]⟩ "A" = true := by decide
-example : shouldRename ⟨0, .hoisted, none, 3, true, none, 0, false, [⟨.literal, []⟩, ⟨.literal, []⟩]⟩ "A" = false := by decide
+example : shouldRename ⟨0, .name, some "long_name", 0, true, none, 0, false, [], [⟨.name, []⟩, ⟨.name, []⟩]⟩ "A" = true := by decide
+example : shouldRename ⟨0, .hoisted, none, 3, true, none, 0, false, [], [⟨.literal, []⟩, ⟨.literal, []⟩]⟩ "A" = false := by decide
 
 end PMV.C17
